@@ -16,7 +16,7 @@ static std::string lenclass(size_t n, int T) {
 static void build(const Args &a, std::vector<Case> &out) {
   std::string mode = a.str("mode", "c01");
   bool thorough = a.str("tier", "quick") == "thorough";
-  int nkeys = thorough ? 3 : 1, nseeds = (mode == "c02") ? (thorough ? 4 : 2) : (thorough ? 2 : 1), ncont = thorough ? 3 : 1;
+  int nkeys = thorough ? 3 : 1, nseeds = (mode == "c02") ? (thorough ? 4 : 2) : (thorough ? 2 : 1), ncont = thorough ? 4 : 2;
   std::vector<int> Ts = a.list("T", {1, 2, 3, 4, 5, 6, 7, 8, 9, 10, 11, 12, 13, 14, 15, 16});
   for (int T : Ts) {
     size_t maxn = (size_t)(T + 2) * S + 17;
@@ -42,7 +42,8 @@ static void build(const Args &a, std::vector<Case> &out) {
 static std::string run_c01(const Case &c) {
   int T = (int)c.num("T"), cm = (int)c.num("cm"), hm = (int)c.num("hm");
   size_t n = (size_t)c.num("n");
-  Bytes P = fo::content((int)c.num("ct"), n);
+  static const int CT[4] = {0, 3, 1, 2}; // position-dependent, padding-like (every block ends in 0x10/0x01), zeros, FF
+  Bytes P = fo::content(CT[c.num("ct")], n);
   const unsigned char *key = fo::KEYS[c.num("k")];
   fo::OpResult e = fo::wc_encrypt(P, key, cm, hm, fo::seed_of((int)c.num("sd")), T);
   if (!e.ret) return "encrypt-reports-failure|execute_encrypt returned false";
@@ -55,7 +56,8 @@ static std::string run_c01(const Case &c) {
 static std::string run_c02(const Case &c) {
   int T = (int)c.num("T"), cm = (int)c.num("cm"), hm = (int)c.num("hm");
   size_t n = (size_t)c.num("n");
-  Bytes P = fo::content((int)c.num("ct"), n);
+  static const int CT[4] = {0, 3, 1, 2}; // position-dependent, padding-like (every block ends in 0x10/0x01), zeros, FF
+  Bytes P = fo::content(CT[c.num("ct")], n);
   const unsigned char *key = fo::KEYS[c.num("k")];
   std::string seed = fo::seed_of((int)c.num("sd"));
   fo::OpResult e = fo::wc_encrypt(P, key, cm, hm, seed, T);
